@@ -12,6 +12,7 @@
 //	jobsh shell sizes                output sizes 0 .. 1 MiB on stdout and stderr
 //	jobsh func                       FunctionJob results / errors / zeroing
 //	jobsh cancel                     cancellation aborts a function, an in-flight request, `sleep 10`
+//	jobsh overlap                    channel-sequenced overlapping executions (A starts, B starts, B completes, A completes; and mirror)
 //	jobsh conc KIND ROUNDS           8 goroutines on one job object (KIND = func | shell | curl)
 //	jobsh leak N                     goroutines, server connections, descriptors before/after N executions
 package main
@@ -45,7 +46,7 @@ func atoi(s string) int {
 }
 
 func usage() {
-	fmt.Fprintln(os.Stderr, "usage: jobsh isolated stress G N SEED | isolated hold | isolated sched MS | http synthetic|server|transport | shell exits|sizes | func | cancel | conc KIND ROUNDS | leak N")
+	fmt.Fprintln(os.Stderr, "usage: jobsh isolated stress G N SEED | isolated hold | isolated sched MS | http synthetic|server|transport | shell exits|sizes | func | cancel | overlap | conc KIND ROUNDS | leak N")
 	os.Exit(2)
 }
 
@@ -75,6 +76,8 @@ func main() {
 		funcCases()
 	case a[0] == "cancel" && len(a) == 1:
 		cancelCases()
+	case a[0] == "overlap" && len(a) == 1:
+		overlap()
 	case a[0] == "conc" && len(a) == 3:
 		conc(a[1], atoi(a[2]))
 	case a[0] == "leak" && len(a) == 2:
